@@ -52,8 +52,8 @@ META = {
     "percent-encoding, NUL, non-ASCII), with/without leading '/', plus explicit sentinel spellings, on 12 "
     "FileSystemLoader and 3 PackageLoader setups: no file outside the search roots is ever opened, the result is the "
     "file the in-root resolution finds or TemplateNotFound, parent references only ever give TemplateNotFound. All "
-    "ChoiceLoader/PrefixLoader trees from a list of 13 shapes over <= 3 DictLoaders x all leaf contents x all query "
-    "names: first loader wins, TemplateNotFound iff none has the name, prefix split at the first delimiter, for both "
+    "ChoiceLoader/PrefixLoader trees from a list of 17 shapes over <= 3 DictLoaders x all leaf contents x all query "
+    "names: first loader wins, TemplateNotFound iff none has the name, prefix split at the first delimiter (single- and multi-character delimiters, the remainder starts after the whole delimiter), for both "
     "get_source and load.",
     "note": "POSIX only (os.sep='/', os.altsep=None: the backslash and drive fragments are ordinary characters here); "
     "only open() is observed (stat/isfile probes outside the roots are not reads); no symlinks in the tree; zip "
@@ -389,10 +389,18 @@ SHAPES = [
     P(":", p=D(0), q=D(1)),                               # other delimiter
     P_([("", D(0)), ("p", D(1))]),                        # empty prefix: "/x"
     P(p=P(":", q=D(0)), q=C(D(1))),                       # nested with different delimiters
+    P("::", p=D(0), q=D(1)),                              # multi-character delimiter (":" alone is not one)
+    P("->", p=D(0), q=P("::", p=D(1))),                   # nested multi-character delimiters
+    P_([("p", D(0)), ("p_", D(1)), ("q", D(2))], "__"),   # delimiter character also ends a prefix: "p___x"
+    P("q/", p=D(0), x=D(1)),                              # delimiter made of characters that occur in names
 ]
 
 QUERY_EDGE = ["", "/", "p/", "/x", "p//x", "x/", ":x", "p:x", "p:q/x", "p:q:x", "q:x", "p:p/x", "p/q:x", "p/q:q/x",
-              "q:p/x", "//x", "p/q/", "p:"]
+              "q:p/x", "//x", "p/q/", "p:",
+              # multi-character delimiters: the remainder starts after the WHOLE first delimiter
+              "p::x", "p::q/x", "p:::x", "q::x", "p::", "::x", "p::p::x", "p::q::x", "p->x", "p->q/x", "q->p::x",
+              "q->p:x", "q->p::q/x", "p-x", "p>x", "p->", "q->p->x", "p__x", "p___x", "p____x", "p_x", "p___q/x",
+              "p__q/x", "q__x", "q___x", "p_", "pq/x", "pq/q/x", "xq/x", "xq/q/x", "pq/", "q/x", "pq//x", "pqq/x"]
 
 
 def leaf_count(tree):
